@@ -193,7 +193,8 @@ func (s *sweep) check(q httpReq, resp httpResp) {
 	}
 	if q.Write || resp.Code >= 500 || s.nreq%25 == 0 {
 		nonAtomicStream := (q.Route == "v2.bulk.jsonStream" || q.Route == "v2.bulk.scriptStream") && !strings.Contains(q.Path, "atomic=true") && jsonEnvelope(resp.Body)
-		if (resp.Code >= 200 && resp.Code < 300 && q.Write) || (strings.HasPrefix(q.Route, "v2.bulk") && bulkErrorBody(resp.Body)) || nonAtomicStream {
+		atomicBulk := strings.HasPrefix(q.Route, "v2.bulk") && strings.Contains(q.Path, "atomic=true") // all or nothing: a 4xx must leave no trace
+		if (resp.Code >= 200 && resp.Code < 300 && q.Write) || (strings.HasPrefix(q.Route, "v2.bulk") && !atomicBulk && bulkErrorBody(resp.Body)) || nonAtomicStream {
 			// (a non-atomic stream that turns out malformed keeps the elements read and committed before the malformed one, as a
 			// failing element does)
 			// a non-atomic bulk answered 400 keeps the elements committed before the failing one (by design, C32)
@@ -206,6 +207,8 @@ func (s *sweep) check(q httpReq, resp httpResp) {
 				tag := "[effect-after-error]"
 				if (q.Route == "v2.bulk.jsonStream" || q.Route == "v2.bulk.scriptStream") && strings.Contains(q.Path, "atomic=true") {
 					tag = "[atomic-stream-partial]"
+				} else if atomicBulk {
+					tag = "[atomic-bulk-partial]"
 				}
 				viol("ledger changed by a request answered " + fmt.Sprint(resp.Code) + ": " + desc + " " + tag)
 				s.cur = now
@@ -317,7 +320,12 @@ func sweepRoutes() []sweepRoute {
 	v1 := "/l1"
 	return []sweepRoute{
 		{name: "v2.createTransaction", method: "POST", path: constPath(v2 + "/transactions"), body: txBody, write: true},
-		{name: "v2.bulk", method: "POST", path: constPath(v2 + "/_bulk"), body: bulkBody, write: true},
+		{name: "v2.bulk", method: "POST", path: func(s *sweep, r *Rng) string {
+			if r.Bool() {
+				return v2 + "/_bulk?atomic=true"
+			}
+			return v2 + "/_bulk"
+		}, body: bulkBody, write: true},
 		{name: "v2.bulk.scriptStream", custom: genScriptStream},
 		{name: "v2.bulk.jsonStream", custom: genJSONStream},
 		{name: "v2.revertTransaction", method: "POST", path: constPath(v2 + "/transactions/%ID%/revert"), write: true, idPos: "id"},
@@ -601,7 +609,11 @@ func (s *sweep) gen(r *Rng, rt sweepRoute) httpReq {
 	q.Body = rawBody
 	path = strings.ReplaceAll(path, "%ID%", url.PathEscape(id))
 	if enc := query.Encode(); enc != "" {
-		path += "?" + enc
+		if strings.Contains(path, "?") {
+			path += "&" + enc
+		} else {
+			path += "?" + enc
+		}
 	}
 	q.Path = path
 	if rt.write && r.Chance(10) {
